@@ -412,6 +412,13 @@ Definition rstep (cf : rcfg) (s : rst) (l : rlab) : rst :=
 
 Definition rrun (cf : rcfg) (s : rst) (ls : list rlab) : rst := fold_left (rstep cf) ls s.
 
+(* thread p holds a worker: it executes its request or is about to give the worker back *)
+Definition occupying (p : rpc) : bool :=
+  match p with RRunning _ | RReleasing _ => true | _ => false end.
+(* number of threads (among those that ever called Start) holding a worker *)
+Definition inflight (s : rst) : N :=
+  N.of_nat (length (filter (fun c => occupying (r_thr s c)) (r_tids s))).
+
 (* thread p has key k reserved or executing *)
 Definition holdsb (p : rpc) (k : N) : bool :=
   match p with
